@@ -136,9 +136,40 @@ Qed.
 Lemma be_to_N_snoc b x : be_to_N (b ++ [x]) = be_to_N b * 256 + x.
 Proof. unfold be_to_N. rewrite be_acc_app. reflexivity. Qed.
 
+(** the slot count the code computes is the mathematical ceiling: no wrap-around for any uint64 length *)
+Lemma u64_ceiling32_is_ceil32 n : u64_ceiling32 n = ceil32 n.
+Proof. unfold u64_ceiling32, ceil32. destruct (n mod 32 =? 0) eqn:E; lia. Qed.
+
+Lemma ceil32_covers n : n <= 32 * ceil32 n.
+Proof. unfold ceil32. lia. Qed.
+
+Lemma go_slice_prefix {A} (l : list A) n :
+  n <= N.of_nat (length l) -> go_slice l 0 n = Ok (firstn (N.to_nat n) l).
+Proof.
+  intro H. unfold go_slice. replace ((0 <=? n) && (n <=? N.of_nat (length l))) with true by lia.
+  unfold slice. rewrite N.sub_0_r. reflexivity.
+Qed.
+
+Lemma length_flat_words ws : length (flat_map word_bytes ws) = (32 * length ws)%nat.
+Proof.
+  induction ws as [|w ws IH]; [reflexivity|]. cbn [flat_map]. rewrite app_length, IH. unfold word_bytes.
+  rewrite length_N_to_be. cbn [length]. lia.
+Qed.
+
 Section Reader.
   Variable st : N -> N.
   Variable keccak : bytes -> N.
+
+  Lemma length_long_words slot cnt : length (long_words st keccak slot cnt) = N.to_nat cnt.
+  Proof. unfold long_words. now rewrite map_length, seq_length. Qed.
+
+  Lemma long_slice_ok slot len :
+    go_slice (flat_map word_bytes (long_words st keccak slot (u64_ceiling32 len))) 0 len
+    = Ok (firstn (N.to_nat len) (flat_map word_bytes (long_words st keccak slot (ceil32 len)))).
+  Proof.
+    rewrite u64_ceiling32_is_ceil32. apply go_slice_prefix.
+    rewrite length_flat_words, length_long_words. pose proof (ceil32_covers len). lia.
+  Qed.
 
   Theorem vr_roundtrip_short slot content :
     wf_bytes content -> blen content < 32 ->
@@ -151,7 +182,7 @@ Section Reader.
     assert (Lb : length body = 31%nat) by (apply length_right_pad; unfold len, blen in *; lia).
     assert (Wb : wf_bytes body) by (apply wf_right_pad; assumption).
     assert (Hw : st slot = be_to_N body * 256 + 2 * len) by (rewrite Hh; apply be_to_N_snoc).
-    unfold vr_read. rewrite Hw.
+    unfold vr_read, vr_read_with. rewrite Hw.
     set (B := be_to_N body) in *.
     assert (E : extract_storage_len (B * 256 + 2 * len) = Ok len).
     { rewrite extract_len_valid.
@@ -235,13 +266,13 @@ Section Reader.
     intros Hwf Hlen Hmax Hh. unfold holds_string in Hh.
     replace (blen content <? 32) with false in Hh by lia.
     destruct Hh as [Hw Hd]. set (len := blen content) in *.
-    unfold vr_read. rewrite Hw.
+    unfold vr_read, vr_read_with. rewrite Hw.
     assert (E : extract_storage_len (2 * len + 1) = Ok len).
     { rewrite extract_len_valid.
       - replace ((2 * len + 1) mod 2 =? 0) with false by lia. f_equal. lia.
       - unfold valid_len_word. replace ((2 * len + 1) mod 2 =? 0) with false by lia. lia.
       - intros _. lia. }
-    rewrite E. cbn [bind]. replace (len <? 32) with false by lia. f_equal.
+    rewrite E. cbn [bind]. replace (len <? 32) with false by lia. rewrite long_slice_ok. f_equal.
     assert (Lc : length (chunks content) = N.to_nat (ceil32 len)) by (apply chunk32_length; lia).
     assert (Hwords : map word_bytes (long_words st keccak slot (ceil32 len)) = chunks content).
     { unfold long_words. rewrite map_map.
@@ -272,14 +303,14 @@ Section Reader.
   Theorem vr_rejects_bad_encoding slot :
     valid_len_word (st slot) = false -> exists e, vr_read st keccak slot = Err e.
   Proof.
-    intros H. unfold vr_read. destruct (extract_len_invalid _ H) as [e ->]. eexists; reflexivity.
+    intros H. unfold vr_read, vr_read_with. destruct (extract_len_invalid _ H) as [e ->]. eexists; reflexivity.
   Qed.
 
   Theorem vr_no_panic slot : is_panic (vr_read st keccak slot) = false.
   Proof.
-    unfold vr_read. pose proof (extract_len_no_panic (st slot)) as P.
-    destruct (extract_storage_len (st slot)); cbn in *; try congruence.
-    destruct (a <? 32); reflexivity.
+    unfold vr_read, vr_read_with. pose proof (extract_len_no_panic (st slot)) as P.
+    destruct (extract_storage_len (st slot)); cbn [bind is_panic] in *; try congruence.
+    destruct (a <? 32); [reflexivity|]. rewrite long_slice_ok. reflexivity.
   Qed.
 End Reader.
 
